@@ -70,3 +70,23 @@ Proof.
            header parse_header footer parse_footer verify sch opts
            (own_uncompressed (o_codec opts)) (own_roundtrip (o_codec opts) Ho) H1 H2 H3 H4 Hs ops t Ht).
 Qed.
+
+(** The conclusion of the round-trip theorem evaluated with the CONCRETE encoders and parsers (carquet's Thrift
+    page header and footer, Snappy pages): two columns (OPTIONAL INT32, REQUIRED BOOLEAN), two row groups, values
+    split over several calls, one call without definition levels, page size 1 (every call its own page). *)
+Example write_read_concrete_ex :
+  let c0 := mkcol [97] TInt32 Optional 0 in
+  let c1 := mkcol [98; 99] TBool Required 0 in
+  let ops := [WBatch 0 (mkbatch [[1;0;0;0]] 2 (Some [1;0])); WBatch 1 (mkbatch [[1];[0]] 2 None);
+              WBatch 0 (mkbatch [[255;255;255;127]] 1 None); WBatch 1 (mkbatch [[1]] 1 None); WNewRowGroup;
+              WBatch 1 (mkbatch [[0]] 1 None); WBatch 0 (mkbatch [] 1 (Some [0])); WClose] in
+  match run_concrete [c0; c1] (mkopt E_CARQUET_COMPRESSION_SNAPPY 1 None) ops, table_of [c0; c1] ops with
+  | Ok (sts, file, true), Some t =>
+      all_ok sts = true /\
+      match read_concrete true file with
+      | Ok r => drop_empty r = result_of_table t
+      | _ => False
+      end
+  | _, _ => False
+  end.
+Proof. vm_compute. split; reflexivity. Qed.
